@@ -21,6 +21,7 @@ let run mode file =
   let d5 = ref false and unmapped = ref false in
   let last_dump = ref "t:" and pending_dump = ref "t:" in
   let last_reach = ref (-1) in
+  let api_free : int list option ref = ref None in
   let ic = open_in file in
   let cases = ref 0 and ops = ref 0 and mism = ref 0 and pfail = ref 0 and imgs = ref 0 in
   let kinds = Hashtbl.create 32 in
@@ -50,6 +51,12 @@ let run mode file =
       incr cases; case_id := id; opidx := 0; Buffer.clear optext; flags := []; dead := false;
       s.committed <- empty_root; s.work <- None; Hashtbl.reset s.readers; s.stale <- false; d5 := false; unmapped := false; last_reach := -1;
       last_dump := "t:"; pending_dump := "t:"
+    | "i" :: what :: fields when mode = "c12" && (what = "commit" || what = "open") ->
+      let kv = kv_of fields in
+      let ids s = if s = "-" || s = "" then [] else List.map int_of_string (String.split_on_char ',' s) in
+      let pend = List.concat_map (fun ent -> match String.split_on_char ':' ent with [_; l] -> ids l | _ -> [])
+          (if get kv "flpend" = "-" then [] else String.split_on_char ';' (get kv "flpend")) in
+      api_free := Some (List.sort compare (ids (get kv "flfree") @ pend))
     | "io" :: kind :: off :: _ :: rest ->
       if rest = ["FAIL"] then (fail_kind := kind; fail_after_meta := !meta_written)
       else if kind = "write" && int_of_string off < 2 * s.ps then meta_written := true
@@ -159,7 +166,16 @@ let run mode file =
                  (* C12: what the independent reader decodes = what the API reported for the state just committed *)
                  let dtxt = digest_or_text (dump_root v.Layout.v_root) in
                  if !last_dump <> "?" && dtxt <> !last_dump then propfail "decoded_content" (Printf.sprintf "decoder=%s api=%s" (cut dtxt) (cut !last_dump));
-                 flag "img"
+                 flag "img";
+                 (* the persisted free list, read with the published count conventions, is the API's free + pending set *)
+                 (match v.Layout.v_free, !api_free with
+                  | Some f, Some a when !last_dump <> "?" ->
+                    let f = List.sort compare (List.map int_of_n f) in
+                    if f <> a then propfail "decoded_freelist" (Printf.sprintf "decoder reads %d ids, the API holds %d free+pending ids (first difference near %s)"
+                      (List.length f) (List.length a)
+                      (try string_of_int (List.find (fun x -> not (List.mem x a)) f) with Not_found -> (try string_of_int (List.find (fun x -> not (List.mem x f)) a) with Not_found -> "?")));
+                    if List.length f >= 65535 then flag "freelist-0xFFFF"
+                  | _ -> ())
                end;
                if acct then begin
                (* C07: accounting *)
